@@ -129,3 +129,94 @@ def check_ir(r, ir, tol=1e-12):
                 if not (abs(a - b) <= 1e-9 * max(abs(a), abs(b)) + 1e-300 + (float(floor[j]) if floor is not None else 0.0) or (math.isinf(a.real) and a == b)):
                     bad.append((nm, "bin %d: implementation %r, generated table %r" % (j, v[j], m))); break
     return bad
+
+
+# ----------------------------------------------------------------------------- generated Coq text evaluated at binary64
+TRANSCENDENTAL = ("arcsin", "np.angle", "log10", "rad2deg", "_UNWRAP")
+
+
+def coq_attr_samples(r, ir, rng, nbins=3):
+    """(name, mode, env literal, implementation value) for the attributes whose definition uses only + - * / sqrt."""
+    from .common import fhex
+    tbl = ir.CSD if r.iscsd else ir.AUTO
+    mode = "csd" if r.iscsd else "auto"
+    es = envs(r)
+    out = []
+    idx = sorted(set([0, len(es) - 1] + [rng.randrange(len(es)) for _ in range(nbins)]))[:nbins + 1]
+    import inspect
+    with np.errstate(all="ignore"):
+        for nm in tbl:
+            src = inspect.getsource(tbl[nm]) if False else None
+        for nm in ir.NAMES:
+            if nm not in tbl or "unwrapped" in nm:
+                continue
+            v = getattr(r, nm)
+            if v is None:
+                continue
+            errattr = r.iscsd and (nm.endswith("_dev") or nm.endswith("_error")) and nm not in ("Gxx_dev", "Gyy_dev", "Gxx_error", "Gyy_error")
+            for j in idx:
+                e = es[j]
+                if errattr and float(np.asarray(r.coh)[j]) > 1 - 1e-6:
+                    continue      # 1 - coh is rounding noise there (|XY| by hypot vs sqrt differ in the last bit)
+                if not all(np.isfinite([e["XX"], e["YY"], e["S2"], e["S12"], e["M2"], e["fs"], e["XY"].real, e["XY"].imag])):
+                    continue
+                env = "(mkEnv FloatA %s %s %s %s %s %s %s (%s, %s))" % (fhex(e["XX"]), fhex(e["YY"]), fhex(e["S2"]), fhex(e["S12"]), fhex(e["M2"]), fhex(e["navg"]), fhex(e["fs"]), fhex(e["XY"].real), fhex(e["XY"].imag))
+                floor = 0.0
+                if nm in ("GyySx", "GyyRx", "GyyCx"):
+                    floor = 1e-9 * float(np.nan_to_num(max(abs(np.asarray(r.Gyy)[j]), abs(np.asarray(r.Gxx)[j]))))
+                out.append((nm, mode, env, complex(np.asarray(v)[j]), floor if not errattr else -1.0))
+    return out
+
+
+def coq_eval_attrs(samples, transc_names):
+    """Evaluate g_<name>_<mode> FloatA F env by vm_compute; returns list of mismatch descriptions."""
+    import os
+    from . import common
+    use = [s for s in samples if s[0] not in transc_names]
+    if not use:
+        return [], 0
+    head = ("From Coq Require Import ZArith List PrimFloat.\nFrom SK Require Import Arith Cpx.\nFrom SK.gen Require Import AttrsGen.\nOpen Scope float_scope.\n"
+            "Definition FF : fns FloatA := mkFns FloatA PrimFloat.sqrt (fun x => x) (fun x => x) (fun x => x) (fun z => fst z) (fun x => x).\n")
+    files = {}
+    for s0 in range(0, len(use), 400):
+        body = head + "".join("Eval vm_compute in (g_%s_%s FloatA FF %s).\n" % (nm, mode, env) for nm, mode, env, _, _ in use[s0:s0 + 400])
+        files["attrs_%d_%d" % (os.getpid(), s0)] = body
+    res = common.run_case_files(files)
+    evs = []
+    for k in sorted(files, key=lambda x: int(x.rsplit("_", 1)[1])):
+        rc, out = res[k]
+        if rc != 0:
+            return ["coq evaluation failed: " + out[-300:]], 0
+        evs += common.parse_evals(out)
+    if len(evs) != len(use):
+        return ["expected %d evaluations, got %d" % (len(use), len(evs))], 0
+    bad = []
+    for ev, (nm, mode, env, val, floor) in zip(evs, use):
+        t = [float(x) for x in common.tokens(ev)]
+        m = complex(t[0], t[1]) if len(t) >= 2 else complex(t[0], 0.0)
+        if (m != m and val != val) or m == val:
+            continue
+        rel = 1e-13 if floor >= 0 else 1e-7     # error bars contain 1 - coh: cancellation amplifies the last-bit difference of |XY|
+        if not abs(m - val) <= rel * max(abs(m), abs(val)) + 1e-300 + max(floor, 0.0):
+            bad.append("%s/%s: implementation %r, generated Coq definition %r" % (nm, mode, val, m))
+    return bad, len(use)
+
+
+def transcendental_names(ir):
+    """Names whose definition (transitively) uses asin/angle/log10/rad2deg/unwrap — not evaluated in Coq."""
+    import os, re
+    src = open(os.path.join(common.COQ, "gen", "AttrsGen.v")).read()
+    bad = set()
+    defs = dict(re.findall(r"Definition g_(\w+?)_(?:auto|csd) .*? := (.*)\.", src))
+    defs_full = re.findall(r"Definition g_(\w+)_(auto|csd) [^\n]*? := ([^\n]*)\.\n", src)
+    changed = True
+    tr = set()
+    for nm, mode, body in defs_full:
+        if any(k in body for k in ("asinT", "angleT", "mag2dbT", "rad2degT", "unwrapT")):
+            tr.add(nm)
+    while changed:
+        changed = False
+        for nm, mode, body in defs_full:
+            if nm not in tr and any(("g_%s_" % t) in body for t in tr):
+                tr.add(nm); changed = True
+    return tr
